@@ -7,6 +7,7 @@ import (
 	"crypto/x509"
 	"encoding/binary"
 	"fmt"
+	"io"
 	"os"
 	"path/filepath"
 	"strings"
@@ -23,7 +24,8 @@ func c02Pair(c *Ctx, cs Case, img []byte, cert *x509.Certificate, class, certkin
 	}
 	got := canon(goVerifyClass(img, cert))
 	c.Count(fmt.Sprintf("%s|%s|%s|%x", cs.Key(), class, certkind, sha256.Sum256(img)), true, "verify/"+class+"/"+certkind+"/"+strings.ReplaceAll(got, " ", "-"))
-	model, spec := askPeVerify(c, img, cert)
+	model, strict, spec := askPeVerifyLenient(c, img, cert)
+	_ = strict
 	model = canon(model)
 	c.Trace()
 	if model != got {
@@ -34,8 +36,12 @@ func c02Pair(c *Ctx, cs Case, img []byte, cert *x509.Certificate, class, certkin
 		return
 	}
 	if got == "ok true" && spec != "true" {
-		c.Fail(Failure{Kind: "property", What: "verification succeeded although the image carries no signature by this certificate's key that commits to the Authenticode digest of these bytes (" + class + ", certificate: " + certkind + ")", Case: cs,
-			Go: got, Spec: "Spec.authenticodeVerify=" + spec})
+		matcher := ""
+		if class == "size-inflate" {
+			matcher = "c02.size_inflate"
+		}
+		c.Fail(Failure{Kind: "property", Matcher: matcher, What: "verification succeeded although the image carries no signature by this certificate's key that commits to the Authenticode digest of these bytes (" + class + ", certificate: " + certkind + ")", Case: cs,
+			Go: got, Spec: "Spec.authenticodeVerifyLenient=" + spec})
 	}
 	if got == "ok true" && certkind != "right" {
 		c.Fail(Failure{Kind: "property", What: "verification succeeded under a certificate whose key did not sign (" + certkind + ")", Case: cs, Go: got})
@@ -224,6 +230,111 @@ func c02Eval(c *Ctx, cs Case) {
 				if _, sigF, err := signImage(c, tb, 3); err == nil {
 					all(withTable(tb, append(winCert(sig), winCert(sigF)...)), "tampered+foreign-resign")
 					all(withTable(tb, append(winCert(sigF), winCert(sig)...)), "tampered+foreign-resign")
+				}
+			}
+		}
+	}
+	// 7. the directory entry of the certificate table is not signed: let it claim more than the table.
+	// (a) Size inflated so that the "table" swallows the last d bytes in front of it, which are changed, while
+	// the zero padding computed from the new file size stands in for them; (b) the same with the address moved
+	// down by d and an empty leading entry, so that address + size still ends at the end of the file.
+	{
+		ov := append(append([]byte{}, base...), []byte("OVERLAY-DATA")...)
+		ov = append(ov, make([]byte, 7)...)
+		for len(ov)%8 != 0 {
+			ov = append(ov, 0)
+		}
+		if sOv, _, err := signImage(c, ov, 0); err == nil {
+			dd, _ := peOffsets(sOv)
+			va, sz := int(binary.LittleEndian.Uint32(sOv[dd:])), int(binary.LittleEndian.Uint32(sOv[dd+4:]))
+			ds := []int{1 + c.Rng.Intn(7)}
+			if c.Thorough || cs.S("path") != "" {
+				ds = []int{1, 2, 3, 4, 5, 6, 7}
+			}
+			if va > 8 && va+sz == len(sOv) {
+				all(sOv, "signed-overlay")
+				for _, d := range ds {
+					ev := append([]byte{}, sOv...)
+					for i := 0; i < d; i++ {
+						ev[va-1-i] = 0xCC
+					}
+					ev = append(ev, bytes.Repeat([]byte{0x41}, 8-d)...)
+					binary.LittleEndian.PutUint32(ev[dd+4:], uint32(sz+8))
+					all(ev, "size-inflate")
+					sh := append([]byte{}, sOv[:va-d]...)
+					sh = append(sh, 8, 0, 0, 0, 0, 2, 2, 0) // an entry with an empty body in front of the real ones
+					sh = append(sh, sOv[va:va+sz]...)
+					for i := 0; i < d && i < 4; i++ { // the bytes in front of the old table were zeros: make the change visible
+						if sh[va-d+i] == 0 {
+							sh[va-d+i] = 8
+						}
+					}
+					binary.LittleEndian.PutUint32(sh[dd:], uint32(va-d))
+					binary.LittleEndian.PutUint32(sh[dd+4:], uint32(sz+8))
+					all(sh, "table-shift")
+				}
+			}
+		}
+	}
+	// 8. data behind the certificate table (a multiple of 8 bytes keeps the padding the same): the table is no
+	// longer the tail of the file, nothing may verify
+	for _, n := range []int{8, 16 + 8*c.Rng.Intn(64)} {
+		m := append(append([]byte{}, signed...), bytes.Repeat([]byte{0x5A}, n)...)
+		all(m, "data-after-table")
+		m2 := append([]byte{}, m...) // ... also when the directory entry is stretched over the appended data
+		dd, _ := peOffsets(m2)
+		binary.LittleEndian.PutUint32(m2[dd+4:], binary.LittleEndian.Uint32(m2[dd+4:])+uint32(n))
+		all(m2, "data-after-table+size")
+	}
+	// 9. the public reader-based API (Authenticode.Verify / SignAuthenticode) with every reader kind: success
+	// exactly when the reader delivers the specification's hash input of the image
+	if pre := unhx(fieldAfter(c.Drv.Ask("pe.spec", hx(signed)), "pre=")); len(pre) > 0 {
+		if a, err := authenticode.ParseAuthenticode(sig); err == nil {
+			streams := map[string][]byte{"same": pre}
+			t1 := append([]byte{}, pre...)
+			t1[len(t1)-1] ^= 0x20
+			streams["last-byte"] = t1
+			t2 := append([]byte{}, pre...)
+			t2[len(t2)/2] ^= 0x01
+			streams["middle-byte"] = t2
+			streams["prefix"] = pre[:len(pre)-1]
+			streams["other-image"] = other
+			for name, st := range streams {
+				for _, kind := range append([]string{"open-section"}, readerKinds...) {
+					var rd io.Reader
+					if kind == "open-section" {
+						rd = io.NewSectionReader(bytes.NewReader(st), 0, 1<<62)
+					} else {
+						rd = newSrcReader(kind, st).r
+					}
+					var ok bool
+					var verr error
+					if pan, _ := safely(func() { ok, verr = a.Verify(right, rd) }); pan {
+						c.Fail(Failure{Kind: "property", Matcher: "c02.verify_panics", What: "Authenticode.Verify panicked (" + kind + ")", Case: cs})
+						continue
+					}
+					c.Count(fmt.Sprintf("%s|reader|%s|%s", cs.Key(), name, kind), true, "reader-api/"+name+"/"+kind)
+					if want := name == "same"; (ok && verr == nil) != want {
+						c.Fail(Failure{Kind: "property", What: fmt.Sprintf("Authenticode.Verify over a %s reader delivering the %s stream: success=%v, expected %v", kind, name, ok && verr == nil, want), Case: cs, Go: fmt.Sprint(ok, verr)})
+					}
+				}
+			}
+			// signing through the same reader kinds commits to the digest of exactly the bytes delivered
+			want := sha256.Sum256(pre)
+			for _, kind := range append([]string{"open-section"}, readerKinds...) {
+				var rd io.Reader
+				if kind == "open-section" {
+					rd = io.NewSectionReader(bytes.NewReader(pre), 0, 1<<62)
+				} else {
+					rd = newSrcReader(kind, pre).r
+				}
+				key := poolKey(c, 2048, 0)
+				if sg, err := authenticode.SignAuthenticode(key, right, rd, crypto.SHA256); err == nil {
+					if d := embeddedDigest(sg); !bytes.Equal(d, want[:]) {
+						c.Fail(Failure{Kind: "property", What: "SignAuthenticode over a " + kind + " reader embeds a digest that is not the digest of the bytes delivered", Case: cs, Go: hx(d), Spec: hx(want[:])})
+					}
+				} else {
+					c.Fail(Failure{Kind: "property", What: "SignAuthenticode failed over a " + kind + " reader", Case: cs, Go: err.Error()})
 				}
 			}
 		}
